@@ -190,6 +190,10 @@ package util
 //@   ensures old(q.OnChunkAdded) == nil ==> err == nil && q.NextSeqNo == old(q.NextSeqNo) + 1 && len(q.out) == old(len(q.out)) + 1     :queued
 //@   ensures old(q.OnChunkAdded) == nil ==> q.out[len(q.out)-1] != nil && q.out[len(q.out)-1].SeqNo == old(q.NextSeqNo) && len(q.out[len(q.out)-1].Data) == len(data) && (len(data) > 0 ==> &q.out[len(q.out)-1].Data[0] == &data[0])   :numbered_in_order
 //@   ensures old(q.OnChunkAdded) == nil ==> (forall k :: 0 <= k && k < old(len(q.out)) ==> q.out[k] == old(q.out[k]))       :older_packets_kept
+// whatever the hand-over callback does or returns, the chunk was queued under the next number and the
+// number was consumed BEFORE the callback ran (a failed hand-over leaves the chunk queued for retransmission:
+// re-using its number would make the next chunk a duplicate)
+//@   callsite OnChunkAdded#1 () require q.NextSeqNo == old(q.NextSeqNo) + 1 && len(q.out) == old(len(q.out)) + 1 && q.out[len(q.out)-1] != nil && q.out[len(q.out)-1].SeqNo == old(q.NextSeqNo)     :number_consumed_before_the_hand_over
 
 //@ func (q *OutQueue) Write
 //@   property C07, C12
